@@ -376,6 +376,9 @@ impl V {
                 }
             }
         }
+        if non_type_alt_inside_partial(pat, false) {
+            return Err("alternation of non-types inside a partial pattern (does not parse: a partial pattern's field takes a type union)".into());
+        }
         if alt_of_structured(pat) {
             return Err("alternation whose alternatives are tuple patterns with fields (open finding)".into());
         }
@@ -849,6 +852,13 @@ impl V {
     fn function(&self, env: &Env, param: &Ty, body: &Option<Expr>) -> R<(Ty, bool)> {
         let mut cap = Env { vars: env.vars.clone(), depth: env.depth + 1 };
         cap.kill_pending();
+        // a function body is compiled with a fresh scope stack: captures are plain locals without
+        // provenance, and no narrowing recorded outside is visible inside — rebinding a captured name
+        // inside the body is not the open "stale type after rebinding" shape
+        for v in cap.vars.iter_mut() {
+            v.prov = false;
+            v.used.set(false);
+        }
         if param.contains_nil() && !param.is_nil() {
             return Err("function whose parameter type is `T | []` (open finding: return-type dispatch with a nil argument)".into());
         }
@@ -925,6 +935,15 @@ fn pat_has_value_requirement_below(p: &Pat) -> bool {
     match p {
         Pat::Tup(_, fs) => fs.iter().any(|(_, q)| matches!(q, Pat::Lit(_) | Pat::Str(_) | Pat::Pin(_)) || pat_has_value_requirement_below(q)),
         Pat::Part(_, fs) => fs.iter().any(|(_, q)| q.as_ref().map(|q| matches!(q, Pat::Lit(_) | Pat::Str(_) | Pat::Pin(_)) || pat_has_value_requirement_below(q)).unwrap_or(false)),
+        _ => false,
+    }
+}
+
+fn non_type_alt_inside_partial(p: &Pat, inside: bool) -> bool {
+    match p {
+        Pat::Alt(ps) => (inside && ps.iter().any(|q| !matches!(q, Pat::Type(_)) && !matches!(q, Pat::Tup(_, fs) if fs.is_empty()))) || ps.iter().any(|q| non_type_alt_inside_partial(q, inside)),
+        Pat::Tup(_, fs) => fs.iter().any(|(_, q)| non_type_alt_inside_partial(q, inside)),
+        Pat::Part(_, fs) => fs.iter().any(|(_, q)| q.as_ref().map(|q| non_type_alt_inside_partial(q, true)).unwrap_or(false)),
         _ => false,
     }
 }
